@@ -340,8 +340,9 @@ def rule_t8(chk: Check, funcs) -> None:
         chk.ob("T8", f"{fi.key}: verify..trust has no suspension point", ok, "serialised by a lock" if locked else "", evals=len(ver) + len(trs))
 
 
-def rule_t4(chk: Check) -> None:
-    chk.rule("T4", "fingerprint = sha256 over cert.public_bytes(DER) by default; no caller overrides the algorithm; verify/trust compute it from their cert and compare with ==")
+def fingerprint_definition(chk: Check, R: str) -> None:
+    """The certificate fingerprint is a pure function of the certificate handed in:
+    sha256 over its DER encoding, full hex digest, no state kept between calls."""
     fi = chk.proj.func("security.certificates:get_certificate_fingerprint")
     a = fi.node.args
     defaults = dict(zip([x.arg for x in a.args][-len(a.defaults):], a.defaults)) if a.defaults else {}
@@ -361,20 +362,40 @@ def rule_t4(chk: Check) -> None:
         for node, vals, _ in recs:
             for c in calls(node.ast):
                 d = dotted(c.func) or ""
+                if d == "hashlib.new" and c.args:
+                    # hashlib.new(<algorithm>, data): the algorithm on the default path
+                    a0 = interp.eval(c.args[0], dict(init))
+                    d = f"hashlib.{a0.exact}" if isinstance(a0, StrV) and isinstance(a0.exact, str) else "hashlib.new(?)"
                 if d.startswith("hashlib."):
                     used.add(d)
     ok = ok and used == {"hashlib.sha256"}
     if not ok:
-        chk.finding("T4", fi.key, "fingerprint-definition", f"the default fingerprint is not SHA-256 over the DER certificate (default path uses {sorted(used)})", fi.loc())
-    chk.ob("T4", "default fingerprint = sha256(DER)", ok, evals=max(1, len(res)))
+        chk.finding(R, fi.key, "fingerprint-definition", f"the default fingerprint is not SHA-256 over the DER certificate (default path uses {sorted(used)})", fi.loc())
+    chk.ob(R, "default fingerprint = sha256(DER)", ok, evals=max(1, len(res)))
     # return format: "<algorithm>:<hexdigest>" without truncation
-    rets = [r for r in walk(fi.node) if isinstance(r, ast.Return) and r.value is not None]
-    okr = all(isinstance(r.value, ast.JoinedStr) and not any(isinstance(x, ast.Subscript) for x in walk(r.value)) for r in rets)
-    digs = [st for st in walk(fi.node) if isinstance(st, ast.Assign) and "hexdigest" in norm(st.value)]
-    okr = okr and all(not isinstance(st.value, ast.Subscript) and norm(st.value).endswith(".hexdigest()") for st in digs)
+    # no slice is taken of the digest / of the returned string
+    sliced = [x for x in walk(fi.node) if isinstance(x, ast.Subscript) and isinstance(x.slice, ast.Slice) and any(k in norm(x.value) for k in ("digest", "fingerprint"))]
+    okr = not sliced
     if not okr:
-        chk.finding("T4", fi.key, "fingerprint-truncated", "the digest is truncated or reformatted before it is returned", fi.loc())
-    chk.ob("T4", "full hex digest returned", okr)
+        chk.finding(R, fi.key, "fingerprint-truncated", "the digest is truncated or reformatted before it is returned", fi.loc())
+    chk.ob(R, "full hex digest returned", okr)
+    # no memoisation / module state: the result depends on this certificate only
+    stateful = [x for x in walk(fi.node) if isinstance(x, (ast.Global, ast.Nonlocal))]
+    mod_names = set(fi.module.constants) | {n for n in getattr(fi.module, "globals", [])}
+    for x in walk(fi.node):
+        if isinstance(x, ast.Subscript) and isinstance(x.value, ast.Name) and x.value.id not in fi.params and not any(isinstance(st, (ast.Assign, ast.AnnAssign)) and any(isinstance(t, ast.Name) and t.id == x.value.id for t in (st.targets if isinstance(st, ast.Assign) else [st.target])) for st in walk(fi.node)):
+            stateful.append(x)
+    decos = [d for d in fi.node.decorator_list if "cache" in norm(d)]
+    okp = not stateful and not decos
+    if not okp:
+        what = norm(decos[0]) if decos else norm(stateful[0])[:60]
+        chk.finding(R, fi.key, f"fingerprint-stateful:{what[:40]}", f"the fingerprint function keeps state between calls (`{what}`): the value returned for a certificate can be one computed for another certificate (e.g. one with the same issuer and serial number)", fi.loc())
+    chk.ob(R, "fingerprint is a pure function of the certificate", okp)
+
+
+def rule_t4(chk: Check) -> None:
+    chk.rule("T4", "fingerprint = sha256 over cert.public_bytes(DER) by default; no caller overrides the algorithm; verify/trust compute it from their cert and compare with ==")
+    fingerprint_definition(chk, "T4")
     # callers
     n = 0
     okc = True
@@ -540,5 +561,8 @@ def run(chk: Check) -> None:
     rule_t5(chk)
     rule_t6(chk)
     rule_t7(chk, funcs)
+    from .c19 import wire_fidelity
+
+    wire_fidelity(chk, "T9", "the TOFU key is canonical: ParsedURL.hostname is the lower-cased, unbracketed host and .port the effective port for every spelling (= C19.N1-N3), so one host:port has one pin")
     chk.trusted = ["CPython ast parser", "engine CFG / abstract evaluator", "hashlib, cryptography public_bytes(DER), sqlite3"]
     chk.assumptions = ["SQLite semantics over histories of store operations are trusted", "the explicit re-pin command (`nauyaca tofu trust`) runs with TOFU disabled on purpose and is outside this property"]
